@@ -336,3 +336,81 @@ def ip_history(fam, args):
     r = ip_requests(fam, args)
     bad = r["results"] != r["fresh"] or any(isinstance(x, str) for x in r["results"])
     return dict(violated=bad, observed=r["results"], fresh=r["fresh"], detail="history answers %r vs fresh %r" % (r["results"], r["fresh"]), misses=r["misses"])
+
+
+_JUN_FAMILIES = ["QzF3n6/9CAtpu0O", "B1IREhcSyrleKvMW8LXx", "7N-dVbwsY2g4oaJZGUDj", "iHkq.mPf5T"]
+_JUN_WEIGHTS = [[1, 4, 32], [1, 16, 32], [1, 8, 32], [1, 64], [1, 32], [1, 4, 16, 128], [1, 32, 64]]
+
+
+def jun_reference_decrypt(crypt):
+    """Independent $9$ decoder written from the Crypt::Juniper description (not from the repo)."""
+    alpha = "".join(_JUN_FAMILIES)
+    num = {c: i for i, c in enumerate(alpha)}
+    extra = {c: 3 - f for f, fam_ in enumerate(_JUN_FAMILIES) for c in fam_}
+    if not crypt.startswith("$9$"):
+        raise ValueError("not $9$")
+    body = crypt[3:]
+    if len(body) < 4 or any(c not in num for c in body):
+        raise ValueError("bad body")
+    first = body[0]
+    rest = body[1 + extra[first]:]
+    prev = first
+    out = []
+    pos = 0
+    while rest:
+        w = _JUN_WEIGHTS[pos % 7]
+        grp, rest = rest[:len(w)], rest[len(w):]
+        if len(grp) != len(w):
+            raise ValueError("truncated group")
+        total = 0
+        for ch, wt in zip(grp, w):
+            gap = (num[ch] - num[prev]) % len(alpha) - 1
+            total += gap * wt
+            prev = ch
+        out.append(chr(total % 256))
+        pos += 1
+    return "".join(out)
+
+
+@register("jun_roundtrip")
+def jun_roundtrip(fam, args):
+    p = "".join(chr(c) for c in args["plaintext"])
+    try:
+        c = fam.jun.juniper_nonrandom_encrypt(p, args["salt"])
+        b = fam.jun.juniper_decrypt(c)
+        ref = jun_reference_decrypt(c)
+    except Exception as e:
+        return dict(violated=True, observed="EXC:%s" % type(e).__name__, detail=repr(e))
+    return dict(violated=(b != p or ref != p), observed=c, detail="crypt=%r back=%r reference=%r" % (c, b, ref))
+
+
+@register("jun_step")
+def jun_step(fam, args):
+    J = fam.jun
+    enc = J.ENCODING[args["pos"]]
+    try:
+        out = J._gap_encode(chr(args["char"]), chr(args["prev"]), enc)
+        gaps, pr = [], chr(args["prev"])
+        for ch in out:
+            gaps.append(J._gap(pr, ch))
+            pr = ch
+        dec = J._gap_decode(gaps, enc)
+    except Exception as e:
+        return dict(violated=True, observed="EXC:%s" % type(e).__name__, detail=repr(e))
+    return dict(violated=(dec != chr(args["char"]) or len(out) != len(enc)), observed=out, detail="decoded %r" % dec)
+
+
+@register("jun_malformed")
+def jun_malformed(fam, args):
+    text = "".join(chr(c) for c in args["input"])
+    try:
+        r = fam.jun.juniper_decrypt(text)
+    except ValueError:
+        return dict(violated=False, observed="ValueError", detail="refused")
+    except Exception as e:
+        return dict(violated=True, observed="EXC:%s" % type(e).__name__, detail=repr(e))
+    try:
+        ref = jun_reference_decrypt(text)
+    except ValueError:
+        return dict(violated=True, observed=r, detail="returned %r for a string the reference decoder refuses" % r)
+    return dict(violated=(ref != r), observed=r, detail="reference %r" % ref)
